@@ -5,6 +5,7 @@ package main
 // div/mod (floor for positive divisors); integer conversions wrap as in Go.
 
 import (
+	"os"
 	"fmt"
 	"go/ast"
 	"go/types"
@@ -23,6 +24,7 @@ type SV struct {
 }
 
 type SpecCtx struct {
+	inQuant bool // evaluating the body of a quantifier (bound variables are in scope)
 	tr     *FnTr
 	st     State
 	old    State
@@ -222,6 +224,22 @@ func (c *SpecCtx) loadSV(obj, off *Term, T types.Type) SV {
 				out.L[i] = Ite(Lt(out.L[i], IntB(lo)), IntB(lo), Ite(Gt(out.L[i], IntB(hi)), IntB(hi), out.L[i]))
 			case LLen, LCap, LOff:
 				out.L[i] = Ite(Lt(out.L[i], Int(0)), Int(0), out.L[i])
+			}
+		}
+	}
+	if !c.clamp && objBound != nil && os.Getenv("GOCV_NOSPECBOUND") == "" {
+		// a reference found in a memory version is older than everything allocated after
+		// that version was created (same rule as for loads in the code)
+		for i, lf := range lay.Leaves {
+			if lf.K == LObj && !lf.Str && out.L[i].IntConst() == nil {
+				if e, ok := boundFromCell(out.L[i]); ok && e < curEpoch {
+					k := out.L[i].Key()
+					if _, isAlloc := allocEpoch[k]; !isAlloc {
+						if old, has := objBound[k]; !has || e < old {
+							objBound[k] = e
+						}
+					}
+				}
 			}
 		}
 	}
@@ -839,10 +857,11 @@ func (c *SpecCtx) quant(e *Expr) SV {
 	}
 	var sides []*Term
 	n.sides = &sides
+	n.inQuant = true
 	body := n.evalBool(e.Args[2])
 	if e.Op == "forall" {
 		if c.assume {
-			if e.Args[0] != nil && len(vars) == 1 && c.tr != nil && c.tr.top != nil {
+			if e.Args[0] != nil && len(vars) == 1 && c.tr != nil && c.tr.top != nil && (!c.inQuant || os.Getenv("GOCV_LAZYNEST") != "") {
 				c.registerLazy(e)
 			}
 			return mathBool(Forall(vars, Implies(rng, And(And(sides...), body))))
